@@ -51,7 +51,11 @@ Definition sort_strs (l : list str) : list str := fold_right insert_sorted [] l.
 
 (* group clauses (Go map order) are always compared as a set; the rest in order unless the input
    contains a multi-entry Go map *)
-Definition is_group (s : str) : bool := has_prefix s (US :: s2b "-" ++ US :: s2b "G:").
+(* clauses written by the group evaluation (Go map order): the group clauses themselves and the
+   rule-writing errors of single-member groups *)
+Definition group_kind (k : str) : bool :=
+  has_prefix k (s2b "G:") || str_eqb k (s2b "W:either") || str_eqb k (s2b "W:botheq").
+Definition is_group (s : str) : bool := group_kind (last (split s [US]) []).
 Definition obs_eqb (ordered : bool) (a b : obs) : bool :=
   match a, b with
   | ObsNil, ObsNil => true
@@ -76,12 +80,51 @@ Definition count_marker (o : obs) (m : str) : nat :=
   | _ => O
   end.
 
+(* a clause as the generator expects it: custom-message clause at a path, default-wording clause at
+   a path, a fixed text, a group clause *)
+Inductive exp :=
+| XC (path marker : str)
+| XD (path : str)
+| XF (path text : str)        (* text = the kind part of the canonical form: F:..., W:..., A *)
+| XG (kind_and_members : str).
+
+Definition exp_key (e : exp) : str :=
+  match e with
+  | XC p m => s2b "C" ++ US :: p ++ US :: m
+  | XD p => s2b "D" ++ US :: p
+  | XF p t => s2b "F" ++ US :: p ++ US :: t
+  | XG g => s2b "G" ++ US :: g
+  end.
+
+(* last blank-separated token *)
+Definition last_token (s : str) : str :=
+  match last_index_byte 32%N s with Some i => skipn (i + 1) s | None => s end.
+
+Definition exp_of_canon (s : str) : exp :=
+  match split s [US] with
+  | [p; e; k] =>
+    if has_prefix k (s2b "C:") then XC p (last_token k)
+    else if str_eqb k (s2b "D") then XD p
+    else if has_prefix k (s2b "G:") then XG (skipn 2 k)
+    else XF p k
+  | _ => XF [] s
+  end.
+
+Definition markers_of (o : obs) : list str :=
+  match o with
+  | ObsErr cs => sort_strs (flat_map (fun s => match exp_of_canon s with XC _ m => [m] | _ => [] end) cs)
+  | _ => []
+  end.
+
 Inductive specq :=
 | SNone
 | SNoPanic                                                   (* C13 *)
 | SSize (r : srule) (lo hi : Z) (v : val) (marker : str)     (* C01: marker clause present iff measure outside *)
 | SFmt (f : fspec) (v : val) (marker : str)                  (* C05: marker clause present iff v outside the language *)
-| SVerdict (expect_violated : bool) (marker : str).          (* a verdict fixed by the case *)
+| SVerdict (expect_violated : bool) (marker : str)           (* a verdict fixed by the case *)
+| SExpect (ordered : bool) (expected : list exp)             (* the clauses the generator built the input to produce *)
+| SNil                                                       (* the call must return nil *)
+| SSame (other : obs).                                       (* C18/C08/C12: same marker set as another observation *)
 
 Definition spec_ok (q : specq) (o : obs) : bool :=
   match q with
@@ -99,14 +142,43 @@ Definition spec_ok (q : specq) (o : obs) : bool :=
     | None => false
     end
   | SVerdict b marker => Bool.eqb (has_marker o marker) b && (count_marker o marker <=? 1)%nat
+  | SExpect ordered expected =>
+    match o with
+    | ObsPanic => false
+    | ObsNil => match expected with [] => true | _ => false end
+    | ObsErr cs =>
+      let got := map (fun s => exp_key (exp_of_canon s)) cs in
+      let want := map exp_key expected in
+      let isg (k : str) := has_prefix k (s2b "G") || group_kind (last (split k [US]) []) in
+      negb (match expected with [] => true | _ => false end) &&
+      (if ordered
+       then list_eqb str_eqb (filter (fun k => negb (isg k)) got) (filter (fun k => negb (isg k)) want)
+            && list_eqb str_eqb (sort_strs (filter isg got)) (sort_strs (filter isg want))
+            (* group clauses come last *)
+            && (match find isg got with
+                | Some _ => forallb isg (skipn (length (filter (fun k => negb (isg k)) got)) got)
+                | None => true
+                end)
+       else list_eqb str_eqb (sort_strs got) (sort_strs want))
+    end
+  | SNil => match o with ObsNil => true | _ => false end
+  | SSame other => list_eqb str_eqb (markers_of o) (markers_of other)
   end.
 
-Inductive case := CWalk (e : entry) (ordered : bool) (o : obs) (qs : list specq).
+Inductive case :=
+| CWalk (e : entry) (ordered : bool) (o : obs) (qs : list specq)
+| CTotal (e : entry) (panicked : bool).     (* hostile input: only "did it return normally" is compared *)
 
 Definition check_model (c : case) : bool :=
-  match c with CWalk e ordered o _ => obs_eqb ordered (obs_of (run_entry e)) o end.
+  match c with
+  | CWalk e ordered o _ => obs_eqb ordered (obs_of (run_entry e)) o
+  | CTotal e p => Bool.eqb (is_panic (run_entry e)) p && negb (match run_entry e with OutOfFuel => true | _ => false end)
+  end.
 Definition check_spec (c : case) : bool :=
-  match c with CWalk _ _ o qs => forallb (fun q => spec_ok q o) qs end.
+  match c with
+  | CWalk _ _ o qs => forallb (fun q => spec_ok q o) qs
+  | CTotal _ p => negb p
+  end.
 
 Fixpoint bad_idx (f : case -> bool) (i : N) (cs : list case) : list N :=
   match cs with
